@@ -12,7 +12,7 @@ For every generated history, after EVERY step:
     parameters regenerated from the source tree.
 A second family of histories lends user-class instances (every fresh proxy triggers a nested HANDLE_INSPECT exchange,
 served by letting the owner run while the peer unboxes); there the oracle alone is evaluated."""
-import gc, struct, threading, weakref, zlib
+import gc, struct, threading, time, weakref, zlib
 from harness import common as C
 
 META = {
@@ -196,12 +196,24 @@ class Thing(object):
 
 
 def _idp(x):
-    v = object.__getattribute__(x, "____id_pack__")
-    return (str(v[0]), v[1], v[2])
+    """id pack of a proxy without triggering a remote call (None for anything that is not a proxy)"""
+    try:
+        v = object.__getattribute__(x, "____id_pack__")
+        return (str(v[0]), v[1], v[2])
+    except AttributeError:
+        return None
 
 
 def _rc(x):
-    return object.__getattribute__(x, "____refcount__")
+    try:
+        return object.__getattribute__(x, "____refcount__")
+    except AttributeError:
+        return None
+
+
+def _show(x):
+    """never repr() a proxy: that is a synchronous remote call"""
+    return "<proxy %r>" % (_idp(x),) if isinstance(x, netref.BaseNetref) else repr(x)[:200]
 
 
 class Pair(object):
@@ -210,7 +222,7 @@ class Pair(object):
     def __init__(self, nobj, kind="function"):
         sa, sb = MemStream.pair()
         self.sa, self.sb = sa, sb
-        cfg = {"sync_request_timeout": 20}
+        cfg = {"sync_request_timeout": 5}
         self.A = Connection(VoidService(), Channel(sa), config=dict(cfg, connid="owner"))
         self.B = Connection(VoidService(), Channel(sb), config=dict(cfg, connid="peer"))
         self.held = []
@@ -255,7 +267,7 @@ class Pair(object):
     def proxy_counts(self):
         """per object: (refcount of the cached live proxy or None, refcounts of all distinct live proxies, number of
         references the peer application holds)"""
-        cache = self.B._proxy_cache._dict if not self.B.closed else {}
+        cache = self.B._proxy_cache
         out = []
         per = [dict() for _ in range(self.nobj)]
         holds = [0] * self.nobj
@@ -265,8 +277,7 @@ class Pair(object):
                 per[k][id(x)] = _rc(x)
                 holds[k] += 1
         for i, key in enumerate(self.idmap):
-            wr = cache.get(key)
-            p = wr() if wr is not None else None
+            p = cache.get(key) if not self.B.closed else None      # WeakValueDict.get: None once the proxy is dead
             if p is not None:
                 per[i][id(p)] = _rc(p)
             out.append((_rc(p) if p is not None else None, sorted(per[i].values()), holds[i]))
@@ -304,7 +315,7 @@ class Pair(object):
             else:
                 t.join(0.0002)
             n += 1
-            if n > 200000:
+            if n > 20000:
                 raise RuntimeError("peer did not finish unboxing")
         if res and isinstance(res[0], Exception):
             raise res[0]
@@ -372,7 +383,7 @@ class Pair(object):
         for r in self.pendingA:
             if r._is_ready:
                 if r._is_exc or r._obj is not None:
-                    self.bad_results.append(repr(r._obj)[:200])
+                    self.bad_results.append(_show(r._obj))
             else:
                 keep.append(r)
         self.pendingA = keep
@@ -568,6 +579,12 @@ def oracle(ctx, p, st, case, step, valid, n_exc):
             viol("count-mismatch", "owner's count differs from references in flight + live proxy counts + release notices in flight",
                  {"object": k, "owner_accounts_for": S, "refs_in_flight": refs, "live_proxy_counts": st["all_prox"][k],
                   "dels_in_flight": dels}, "equal")
+        if st["prox"][k] is not None and st["holds"][k] == 0:
+            gc.collect()
+            if p.proxy_counts()[k][0] is not None:
+                viol("proxy-outlives-its-references", "the peer application dropped every reference to a proxy, but the proxy stays alive in "
+                     "the peer's connection, so its release notice is never sent", {"object": k, "proxy_count": st["prox"][k]},
+                     "proxy finalized, release notice in flight")
         if (held or refs or dels or uses) and not st["alive"][k]:
             viol("dead-while-held", "a lent object died although the peer can still reach it", {"object": k}, "alive")
         if not held and not refs and not dels:
@@ -587,7 +604,7 @@ def oracle(ctx, p, st, case, step, valid, n_exc):
     for (c, is_exc, val) in p.use_results:
         if is_exc or (val != "ref" and val != c):
             viol("proxy-unusable", "an operation through a live proxy failed or reached another object",
-                 {"proxy": c, "is_exc": is_exc, "value": repr(val)[:80]}, "result of object %d" % c)
+                 {"proxy": c, "is_exc": is_exc, "value": _show(val)[:80]}, "result of object %d" % c)
     p.use_results[:] = []
     return sigs
 
@@ -627,7 +644,6 @@ def run_history(ctx, case, snaps):
     """drive one history on a real pair; oracle after every step; correspondence when snaps is not None"""
     p = Pair(case["nobj"], case.get("kind", "function"))
     valid = True
-    n_exc_total = 0
     stats = {"refs_delivered": 0, "dels_served": 0, "uses_served": 0, "crossings": 0}
     ok = True
     try:
@@ -658,9 +674,14 @@ def run_history(ctx, case, snaps):
                         stats["crossings"] += 1
                 elif m[0] == "use":
                     stats["uses_served"] += 1
-            st = observe(p)
-            n_exc_total = p.sb.n_exc if False else p.sa.n_exc
-            sigs = oracle(ctx, p, st, case, i, valid, n_exc_total if valid else 0)
+            try:
+                st = observe(p)
+                n_exc_total = p.sa.n_exc      # exception replies the owner has sent so far
+                sigs = oracle(ctx, p, st, case, i, valid, n_exc_total if valid else 0)
+            except Exception as e:
+                ctx.violation("state-not-observable:" + C.exc_enum(e), dict(case, failed_step=i), observed="%s: %s" % (type(e).__name__, str(e)[:300]),
+                              expected="owner table / proxy cache / frames in flight can be read", what="the connection pair is in a state the harness cannot read after %r" % (op,))
+                break
             if snaps is not None and ok:
                 ctx.model_traces += 1
                 ok = compare(ctx, st, snaps[i], i, op, case)
@@ -679,6 +700,7 @@ def run_history(ctx, case, snaps):
                 ctx.violation("object-kept-alive-after-close", dict(case, failed_step=len(case["ops"])), observed={"alive": p.alive()},
                               expected="all dead", what="the owner's connection was closed and the application forgot the objects, yet they stay alive")
     finally:
+        stats["owner_exception_replies"] = p.sa.n_exc
         p.shutdown()
     return stats
 
@@ -733,7 +755,20 @@ def nontrivial(stats):
 
 def run_cases(ctx, model, cases):
     res = model.batch([case_sx(c) for c in cases]) if model else None
+    gc.collect()
+    gc.freeze()     # the (large) model answers need not be traversed by the collections done while checking liveness
+    try:
+        _run_cases(ctx, cases, res)
+    finally:
+        gc.unfreeze()
+
+
+def _run_cases(ctx, cases, res):
+    t0 = time.time()
     for i, c in enumerate(cases):
+        if ctx.violations and time.time() - t0 > 40:
+            ctx.count("histories-skipped-after-violation", len(cases) - i)     # the check has failed already; do not wait for stalled peers
+            break
         snaps = res[i] if res is not None and c.get("kind", "function") == "function" else None
         if snaps is not None and (not isinstance(snaps, list) or len(snaps) != len(c["ops"])):
             ctx.tie_broken("correspondence:model-output", "unexpected model answer %r" % (snaps,)[:300])
